@@ -118,11 +118,20 @@ func (sc *Scanner) skipComments(ch int) error {
 	if sc.Peek() == '[' {
 		ch = sc.Next()
 		if sc.Peek() == '[' || sc.Peek() == '=' {
-			var buf bytes.Buffer
-			if err := sc.scanMultilineString(sc.Next(), &buf); err != nil {
-				return sc.Error(buf.String(), "invalid multiline comment")
+			level := 0
+			for sc.Peek() == '=' {
+				sc.Next()
+				level++
 			}
-			return nil
+			if sc.Peek() == '[' {
+				sc.Next()
+				var buf bytes.Buffer
+				if err := sc.scanMultilineBody(level, &buf); err != nil {
+					return sc.Error(buf.String(), "invalid multiline comment")
+				}
+				return nil
+			}
+			// "--[==" without a second '[' is an ordinary short comment
 		}
 	}
 	for {
@@ -254,12 +263,19 @@ func (sc *Scanner) countSep(ch int) (int, int) {
 }
 
 func (sc *Scanner) scanMultilineString(ch int, buf *bytes.Buffer) error {
-	var count1, count2 int
+	var count1 int
 	count1, ch = sc.countSep(ch)
 	if ch != '[' {
 		return sc.Error(string(rune(ch)), "invalid multiline string")
 	}
-	ch = sc.Next()
+	return sc.scanMultilineBody(count1, buf)
+}
+
+// scanMultilineBody scans the body of a long string or comment of the given level;
+// the opening bracket has been consumed.
+func (sc *Scanner) scanMultilineBody(count1 int, buf *bytes.Buffer) error {
+	var count2 int
+	ch := sc.Next()
 	if ch == '\n' || ch == '\r' {
 		ch = sc.Next()
 	}
